@@ -252,7 +252,10 @@ structure Action where
 structure Tx where
   sponsor : Addr
   actions : List Action
-  /-- result of `Transaction.Units` (a function of size, compute units and declared keys: C12) -/
+  /-- result of `Transaction.Units(bh, r)` **for the rules `r` in force at the call** (a function
+  of size, compute units, declared keys and the rules' unit parameters: C12). The drivers pass,
+  for every decision point, the units under that decision's rules (admission: rules at
+  submission time; builder / processor: rules of the block's timestamp). -/
   units : Option (List Nat)
   maxFee : Nat := 0
   chainID : Nat := 0
@@ -386,6 +389,30 @@ def builderIncludes (r : Rules) (h : Handler) (prices : List Nat) (now : Int) (s
   match processTx r h prices now scope tx cur with
   | (_, .done res) => if (consume consumed res.units maxUnits).isSome then some res else none
   | _ => none
+
+/-- One iteration of the builder's per-transaction closure on the block being built (state =
+block-level layer + units consumed so far): `PreExecute`, `Execute`, then the capacity check
+`feeManager.Consume(result.Units, maxUnits)`; only a transaction that passes all three is
+committed to the block state and appended (`some result`). A transaction that does not fit is
+skipped (restored to the mempool) and must leave the built state untouched. (The early-stop
+heuristic "dimension above window target" is not modelled: the harness keeps the target high.) -/
+def builderStep (r : Rules) (h : Handler) (prices : List Nat) (now : Int) (maxUnits : List Nat)
+    (p : (Key → Nat) × Tx) (s : Block × List Nat) : (Block × List Nat) × Option Result :=
+  match processTx r h prices now p.1 p.2 s.1.visible with
+  | (cur', .done res) =>
+    match consume s.2 res.units maxUnits with
+    | some c' => ((s.1.commit cur', c'), some res)
+    | none => (s, none)
+  | _ => (s, none)
+
+/-- the builder's loop over the streamed transactions, in order -/
+def builderBlock (r : Rules) (h : Handler) (prices : List Nat) (now : Int) (maxUnits : List Nat) :
+    List ((Key → Nat) × Tx) → Block × List Nat → (Block × List Nat) × List (Option Result)
+  | [], s => (s, [])
+  | p :: rest, s =>
+    let st := builderStep r h prices now maxUnits p s
+    let out := builderBlock r h prices now maxUnits rest st.1
+    (out.1, st.2 :: out.2)
 
 /-- `Processor.executeTxs`: units consumed first, then `PreExecute` and `Execute`; any error
 makes the block invalid. -/
